@@ -118,6 +118,9 @@ int disasm_8048(
             strcat(instruction, "@A");
             break;
           case OP_PP:
+            snprintf(temp, sizeof(temp), "p%d", (opcode & 0x3) + 4);
+            strcat(instruction, temp);
+            break;
           case OP_P03:
           case OP_P12:
             snprintf(temp, sizeof(temp), "p%d", opcode & 0x3);
